@@ -63,6 +63,27 @@ func main() {
 	}
 	pkt := world.Packet{SrcPort: "transfer", SrcChan: "channel-7", DstPort: "transfer", DstChan: "channel-0",
 		ICS: &world.ICS20{Denom: "transfer/channel-7/" + sim.USDC, Amount: "1000", Sender: sim.Authority, Receiver: sim.OrbiterAddr().String(), Memo: string(bz)}}
+	// finding 19: the paymaster's own arithmetic on the sender's gas limit
+	{
+		hugeGas, _ := math.NewIntFromString("115792089237316195423570985008687907853269984665640564039457584007913129639935")
+		a2 := *attrs
+		a2.GasLimit = hugeGas
+		f2 := &core.Forwarding{ProtocolId: core.PROTOCOL_HYPERLANE}
+		if err := f2.SetAttributes(&a2); err != nil {
+			panic(err)
+		}
+		bz2, err := orbtypes.MarshalJSON(s.App.OrbiterKeeper.Codec(), &core.PayloadWrapper{Orbiter: &core.Payload{Forwarding: f2}})
+		if err != nil {
+			panic(err)
+		}
+		p2 := pkt
+		ics := *pkt.ICS
+		ics.Memo = string(bz2)
+		p2.ICS = &ics
+		ctx, _ := base.CacheContext()
+		o := w.RunOp(ctx, world.Op{Kind: "recv", Pkt: p2})
+		fmt.Printf("gas limit 2^256-1 through the paymaster: class %d success %v panic %q ack %s\n", o.Recv.Class, o.Recv.Success, o.Recv.Panic, o.Recv.Ack)
+	}
 	for _, prior := range []int64{0, 10000} {
 		ctx, _ := base.CacheContext()
 		if prior > 0 {
